@@ -155,6 +155,19 @@ pub struct Subject {
     pub random: bool,
     #[allow(clippy::type_complexity)]
     pub fit: Box<dyn Fn(&Data) -> Result<Box<dyn Model>, String>>,
+    /// Extension (round 2): tags of the edge data sets (`data::edge_catalogue`) this configuration
+    /// is fitted on in the `edge` job kind (empty: not part of the edge family)
+    pub edge_tags: Vec<&'static str>,
+    /// a configuration that exists only for the edge family (its CONFIGURATION is the boundary
+    /// case: k = n, eps wider than the target range, zero priors, ...): no rt / neq / micro jobs
+    pub edge_only: bool,
+}
+
+/// Mark the configuration pushed last as a member of the edge family.
+fn edge(v: &mut [Subject], tags: &[&'static str], edge_only: bool) {
+    let s = v.last_mut().expect("a subject was pushed");
+    s.edge_tags = tags.to_vec();
+    s.edge_only = edge_only;
 }
 
 fn es(e: Failed) -> String {
@@ -238,6 +251,8 @@ macro_rules! subj {
             min_p: $minp,
             random: $random,
             fit: Box::new(move |$d: &Data| -> Result<Box<dyn Model>, String> { $body }),
+            edge_tags: Vec::new(),
+            edge_only: false,
         })
     };
 }
@@ -351,6 +366,40 @@ where
                 Ok(wrap_eq(m, Rc::new(|m: &KNNRegressor<T, D>, q: &[Vec<f64>]| predict_obs::<T>("predict", q, &|x| m.predict(x)))))
             });
         }
+        // edge family: k = n (every training row is a neighbour of every query)
+        for (wn, w) in [("uniform", KNNWeightFunction::Uniform), ("distance", KNNWeightFunction::Distance)] {
+            let (alg1, w1) = (alg.clone(), w.clone());
+            subj!(v, format!("knn_classifier[{},{},{},binary,k=n]", dname, an, wn), "knn_classifier", Task::Binary, Domain::Real, domain_min_p, false, |d| {
+                let x = xm::<T>(d);
+                let y = yv::<T>(d, Task::Binary);
+                let p = KNNClassifierParameters::default().with_distance(mk(&x)).with_algorithm(alg1.clone()).with_weight(w1.clone()).with_k(d.n());
+                let m = KNNClassifier::fit(&x, &y, p).map_err(es)?;
+                Ok(wrap_eq(m, Rc::new(|m: &KNNClassifier<T, D>, q: &[Vec<f64>]| predict_obs::<T>("predict", q, &|x| m.predict(x)))))
+            });
+            edge(v, &["plain", "two-rows"], true);
+            let (alg1, w1) = (alg.clone(), w.clone());
+            subj!(v, format!("knn_regressor[{},{},{},k=n]", dname, an, wn), "knn_regressor", Task::Regression, Domain::Real, domain_min_p, false, |d| {
+                let x = xm::<T>(d);
+                let y = yv::<T>(d, Task::Regression);
+                let p = KNNRegressorParameters::default().with_distance(mk(&x)).with_algorithm(alg1.clone()).with_weight(w1.clone()).with_k(d.n());
+                let m = KNNRegressor::fit(&x, &y, p).map_err(es)?;
+                Ok(wrap_eq(m, Rc::new(|m: &KNNRegressor<T, D>, q: &[Vec<f64>]| predict_obs::<T>("predict", q, &|x| m.predict(x)))))
+            });
+            edge(v, &["plain", "two-rows"], true);
+        }
+        // edge family: DBSCAN in which every point is noise (min_samples = n + 1) and in which all
+        // points form one cluster (eps beyond the diameter of the data)
+        for (cn, all_noise) in [("all-noise", true), ("single-cluster", false)] {
+            let alg1 = alg.clone();
+            subj!(v, format!("dbscan[{},{},{}]", dname, an, cn), "dbscan", Task::Unsupervised, Domain::Real, domain_min_p, false, |d| {
+                let x = xm::<T>(d);
+                let p = DBSCANParameters::default().with_distance(mk(&x)).with_algorithm(alg1.clone());
+                let p = if all_noise { p.with_eps(t::<T>(1.1 * d.unit)).with_min_samples(d.n() + 1) } else { p.with_eps(t::<T>(100.0 * d.unit + 100.0)).with_min_samples(2) };
+                let m = DBSCAN::fit(&x, p).map_err(es)?;
+                Ok(wrap_eq(m, Rc::new(|m: &DBSCAN<T, D>, q: &[Vec<f64>]| predict_obs::<T>("predict", q, &|x| m.predict(x)))))
+            });
+            edge(v, &["plain", "two-rows"], true);
+        }
         let alg = alg.clone();
         subj!(v, format!("dbscan[{},{}]", dname, an), "dbscan", Task::Unsupervised, Domain::Real, domain_min_p, false, |d| {
             let x = xm::<T>(d);
@@ -396,6 +445,8 @@ where
             }),
         ))
     });
+    // edge family: two training rows = a single pair of support vectors
+    edge(v, &["two-rows"], false);
     subj!(v, format!("svr[{}]", kname), "svr", Task::Regression, Domain::Real, 1, false, |d| {
         let x = xm::<T>(d);
         let y = yv::<T>(d, Task::Regression);
@@ -404,6 +455,21 @@ where
         let m = SVR::fit(&x, &y, p).map_err(es)?;
         Ok(wrap_eq(m, Rc::new(|m: &SVR<T, DM<T>, K>, q: &[Vec<f64>]| predict_obs::<T>("predict", q, &|x| m.predict(x)))))
     });
+    edge(v, &["two-rows"], false);
+    // edge family: all targets inside one epsilon-tube (eps exactly half the target range, and
+    // 3/4 of the range + 0.1; constant targets via the const-target data sets) => the optimiser
+    // does not make a single step: no support vectors, empty `instances` / `w`, prediction == b
+    for (tn, factor, extra) in [("tube=0.5*range", 0.5, 0.0), ("tube=0.75*range+0.1", 0.75, 0.1)] {
+        subj!(v, format!("svr[{},{}]", kname, tn), "svr", Task::Regression, Domain::Real, 1, false, |d| {
+            let x = xm::<T>(d);
+            let y = yv::<T>(d, Task::Regression);
+            let spread = d.y_reg.iter().cloned().fold(f64::MIN, f64::max) - d.y_reg.iter().cloned().fold(f64::MAX, f64::min);
+            let p = SVRParameters::<T, DM<T>, LinearKernel>::default().with_kernel(mk(d.unit)).with_eps(t::<T>(factor * spread + extra)).with_c(t::<T>(spread.max(1.0))).with_tol(t::<T>(1e-3 * spread.max(1.0)));
+            let m = SVR::fit(&x, &y, p).map_err(es)?;
+            Ok(wrap_eq(m, Rc::new(|m: &SVR<T, DM<T>, K>, q: &[Vec<f64>]| predict_obs::<T>("predict", q, &|x| m.predict(x)))))
+        });
+        edge(v, &["plain", "const-target"], true);
+    }
 }
 
 // ------------------------------------------------------------------------------------------------
@@ -443,6 +509,8 @@ pub fn subjects<T: Num>() -> Vec<Subject> {
                 }),
             ))
         });
+        // edge family: target independent of X (constant 0 / constant c) => coefficients exactly 0
+        edge(&mut v, &["const-target"], false);
     }
     for (sn, solver) in [("cholesky", RidgeRegressionSolverName::Cholesky), ("svd", RidgeRegressionSolverName::SVD)] {
         for normalize in [true, false] {
@@ -460,11 +528,32 @@ pub fn subjects<T: Num>() -> Vec<Subject> {
                     }),
                 ))
             });
+            edge(&mut v, &["const-target"], false);
         }
+        // edge family: a penalty so large that every coefficient is (numerically) zero
+        let solver = solver.clone();
+        subj!(v, format!("ridge_regression[{},normalize=false,alpha=1e30]", sn), "ridge_regression", Task::Regression, Domain::Real, 1, false, |d| {
+            let p = RidgeRegressionParameters::default().with_solver(solver.clone()).with_normalize(false).with_alpha(t::<T>(1e30));
+            let m = RidgeRegression::fit(&xm::<T>(d), &yv::<T>(d, Task::Regression), p).map_err(es)?;
+            Ok(wrap_eq(
+                m,
+                Rc::new(|m: &RidgeRegression<T, DM<T>>, q: &[Vec<f64>]| {
+                    let mut o = predict_obs::<T>("predict", q, &|x| m.predict(x));
+                    o.push(Obs::vals("coefficients", mat_vals(m.coefficients())));
+                    o.push(Obs::vals("intercept", vec![f(m.intercept())]));
+                    o
+                }),
+            ))
+        });
+        edge(&mut v, &["plain"], true);
     }
-    for normalize in [true, false] {
-        subj!(v, format!("lasso[normalize={}]", normalize), "lasso", Task::Regression, Domain::Real, 1, false, |d| {
-            let p = LassoParameters::default().with_alpha(t::<T>(0.1)).with_normalize(normalize);
+    for (normalize, large) in [(true, false), (false, false), (true, true), (false, true)] {
+        // `large` (edge family only): a penalty above max|X'y|, so that every coefficient is driven to 0
+        let alpha = if large { 1e4 } else { 0.1 };
+        let ln = if large { format!("normalize={},alpha=1e4", normalize) } else { format!("normalize={}", normalize) };
+        let ln2 = ln.clone();
+        subj!(v, format!("lasso[{}]", ln), "lasso", Task::Regression, Domain::Real, 1, false, |d| {
+            let p = LassoParameters::default().with_alpha(t::<T>(alpha)).with_normalize(normalize);
             let m = Lasso::fit(&xm::<T>(d), &yv::<T>(d, Task::Regression), p).map_err(es)?;
             Ok(wrap_eq(
                 m,
@@ -476,8 +565,13 @@ pub fn subjects<T: Num>() -> Vec<Subject> {
                 }),
             ))
         });
-        subj!(v, format!("elastic_net[normalize={}]", normalize), "elastic_net", Task::Regression, Domain::Real, 1, false, |d| {
-            let p = ElasticNetParameters::default().with_alpha(t::<T>(0.1)).with_l1_ratio(t::<T>(0.5)).with_normalize(normalize);
+        if large {
+            edge(&mut v, &["plain"], true);
+        } else {
+            edge(&mut v, &["const-target"], false);
+        }
+        subj!(v, format!("elastic_net[{}]", ln2), "elastic_net", Task::Regression, Domain::Real, 1, false, |d| {
+            let p = ElasticNetParameters::default().with_alpha(t::<T>(alpha)).with_l1_ratio(t::<T>(0.5)).with_normalize(normalize);
             let m = ElasticNet::fit(&xm::<T>(d), &yv::<T>(d, Task::Regression), p).map_err(es)?;
             Ok(wrap_eq(
                 m,
@@ -489,6 +583,11 @@ pub fn subjects<T: Num>() -> Vec<Subject> {
                 }),
             ))
         });
+        if large {
+            edge(&mut v, &["plain"], true);
+        } else {
+            edge(&mut v, &["const-target"], false);
+        }
     }
     for (task, tn) in [(Task::Binary, "binary"), (Task::Multi, "multi")] {
         for alpha in [0.0, 1.0] {
@@ -511,8 +610,9 @@ pub fn subjects<T: Num>() -> Vec<Subject> {
     // trees
     for (cn, crit) in [("gini", SplitCriterion::Gini), ("entropy", SplitCriterion::Entropy), ("classification_error", SplitCriterion::ClassificationError)] {
         for (task, tn) in [(Task::Binary, "binary"), (Task::Multi, "multi")] {
-            for depth in [None, Some(1u16)] {
-                if depth.is_some() && cn != "gini" {
+            // max_depth = 0 (edge family only): no split happens, the tree is its root leaf
+            for depth in [None, Some(1u16), Some(0u16)] {
+                if depth == Some(1) && cn != "gini" {
                     continue;
                 }
                 let crit = crit.clone();
@@ -522,20 +622,32 @@ pub fn subjects<T: Num>() -> Vec<Subject> {
                     let m = DecisionTreeClassifier::fit(&xm::<T>(d), &yv::<T>(d, task), p).map_err(es)?;
                     Ok(wrap_eq(m, Rc::new(|m: &DecisionTreeClassifier<T>, q: &[Vec<f64>]| predict_obs::<T>("predict", q, &|x| m.predict(x)))))
                 });
+                // edge family: max_depth 0 => the tree is its root leaf (a single class is refused by
+                // `fit`, so there is no const-target variant for the classifier)
+                if depth == Some(0) {
+                    edge(&mut v, &["plain", "two-rows"], true);
+                }
             }
         }
     }
-    for (ln, depth, leaf, split) in [("default", None, 1usize, 2usize), ("max_depth=1", Some(1u16), 1, 2), ("min_samples_leaf=2,min_samples_split=4", None, 2, 4)] {
+    for (ln, depth, leaf, split) in [("default", None, 1usize, 2usize), ("max_depth=1", Some(1u16), 1, 2), ("min_samples_leaf=2,min_samples_split=4", None, 2, 4), ("max_depth=0", Some(0u16), 1, 2), ("min_samples_split=1000", None, 1, 1000)] {
         subj!(v, format!("decision_tree_regressor[{}]", ln), "decision_tree_regressor", Task::Regression, Domain::Real, 1, false, |d| {
             let mut p = DecisionTreeRegressorParameters::default().with_min_samples_leaf(leaf).with_min_samples_split(split);
             p.max_depth = depth;
             let m = DecisionTreeRegressor::fit(&xm::<T>(d), &yv::<T>(d, Task::Regression), p).map_err(es)?;
             Ok(wrap_eq(m, Rc::new(|m: &DecisionTreeRegressor<T>, q: &[Vec<f64>]| predict_obs::<T>("predict", q, &|x| m.predict(x)))))
         });
+        // edge family: constant target => single leaf; max_depth 0 / min_samples_split > n => no split
+        if depth == Some(0) || split > 100 {
+            edge(&mut v, &["plain", "two-rows"], true);
+        } else {
+            edge(&mut v, &["const-target"], false);
+        }
     }
 
     // forests (the library's own seeded generator; the seed is part of the configuration)
-    for (keep, m_try, n_trees, seed) in [(false, None, 3usize, 0u64), (true, Some(1usize), 4, 7), (true, None, 2, 12345), (false, Some(2usize), 5, 1), (true, Some(1usize), 1, u64::MAX)] {
+    // the last two settings (n_trees = 1 with the default m, with and without kept samples) exist for the edge family only
+    for (keep, m_try, n_trees, seed, edge_only) in [(false, None, 3usize, 0u64, false), (true, Some(1usize), 4, 7, false), (true, None, 2, 12345, false), (false, Some(2usize), 5, 1, false), (true, Some(1usize), 1, u64::MAX, false), (false, None, 1, 0, true), (true, None, 1, 3, true)] {
         for (task, tn) in [(Task::Binary, "binary"), (Task::Multi, "multi")] {
             subj!(v, format!("random_forest_classifier[{},keep_samples={},m={:?},n_trees={},seed={}]", tn, keep, m_try, n_trees, seed), "random_forest_classifier", task, Domain::Real, 1, false, |d| {
                 let mut p = RandomForestClassifierParameters::default().with_n_trees(n_trees as u16).with_keep_samples(keep).with_seed(seed);
@@ -553,6 +665,10 @@ pub fn subjects<T: Num>() -> Vec<Subject> {
                     }),
                 ))
             });
+            // edge family: forests of one tree (on ordinary data and on two rows; a single class is refused)
+            if n_trees == 1 {
+                edge(&mut v, &["plain", "two-rows"], edge_only);
+            }
         }
         subj!(v, format!("random_forest_regressor[keep_samples={},m={:?},n_trees={},seed={}]", keep, m_try, n_trees, seed), "random_forest_regressor", Task::Regression, Domain::Real, 1, false, |d| {
             let mut p = RandomForestRegressorParameters::default().with_n_trees(n_trees).with_keep_samples(keep).with_seed(seed);
@@ -570,6 +686,9 @@ pub fn subjects<T: Num>() -> Vec<Subject> {
                 }),
             ))
         });
+        if n_trees == 1 {
+            edge(&mut v, &["plain", "two-rows", "const-target"], edge_only);
+        }
     }
 
     // naive Bayes
@@ -636,6 +755,105 @@ pub fn subjects<T: Num>() -> Vec<Subject> {
         }
     }
 
+    // edge family: user-supplied priors with an exact 0.0 / a tiny / a subnormal entry (GaussianNB,
+    // MultinomialNB, BernoulliNB; CategoricalNB has no priors parameter), and no smoothing
+    // (alpha = 0: "0 for no smoothing" in the parameter documentation) for the three count models,
+    // which makes the stored log-probability of an unseen (class, feature value) ln(0) = -inf
+    for (task, tn) in [(Task::Binary, "binary"), (Task::Multi, "multi")] {
+        let prior_sets: Vec<(&'static str, Vec<f64>)> = if task == Task::Binary {
+            vec![("0,1", vec![0.0, 1.0]), ("1,0", vec![1.0, 0.0]), ("1e-300,1-1e-300", vec![1e-300, 1.0 - 1e-300]), ("5e-324,1", vec![5e-324, 1.0])]
+        } else {
+            vec![("0.5,0,0.5", vec![0.5, 0.0, 0.5]), ("0,0,1", vec![0.0, 0.0, 1.0]), ("1e-300,0.5,0.5", vec![1e-300, 0.5, 0.5]), ("0.5,0.5,5e-324", vec![0.5, 0.5, 5e-324])]
+        };
+        for (pn, pr) in prior_sets {
+            let pr1 = pr.clone();
+            subj!(v, format!("gaussian_nb[{},priors={}]", tn, pn), "gaussian_nb", task, Domain::Real, 1, false, |d| {
+                let p = GaussianNBParameters::<T> { priors: None }.with_priors(pr1.iter().map(|x| t::<T>(*x)).collect());
+                let m = GaussianNB::fit(&xm::<T>(d), &yv::<T>(d, task), p).map_err(es)?;
+                Ok(wrap_eq(
+                    m,
+                    Rc::new(|m: &GaussianNB<T, DM<T>>, q: &[Vec<f64>]| {
+                        let mut o = predict_obs::<T>("predict", q, &|x| m.predict(x));
+                        o.push(Obs::vals("class_priors", vals(m.class_priors())));
+                        o.push(Obs::vals("theta", m.theta().iter().flat_map(|r| vals(r)).collect()));
+                        o.push(Obs::vals("var", m.var().iter().flat_map(|r| vals(r)).collect()));
+                        o
+                    }),
+                ))
+            });
+            edge(&mut v, &["plain"], true);
+            let pr1 = pr.clone();
+            subj!(v, format!("bernoulli_nb[{},binarize=1.5,priors={}]", tn, pn), "bernoulli_nb", task, Domain::Counts, 1, false, |d| {
+                let mut p = BernoulliNBParameters::default().with_priors(pr1.iter().map(|x| t::<T>(*x)).collect());
+                p.binarize = Some(t::<T>(1.5));
+                let m = BernoulliNB::fit(&xm::<T>(d), &yv::<T>(d, task), p).map_err(es)?;
+                Ok(wrap_eq(
+                    m,
+                    Rc::new(|m: &BernoulliNB<T, DM<T>>, q: &[Vec<f64>]| {
+                        let mut o = predict_obs::<T>("predict", q, &|x| m.predict(x));
+                        o.push(Obs::vals("feature_log_prob", m.feature_log_prob().iter().flat_map(|r| vals(r)).collect()));
+                        o
+                    }),
+                ))
+            });
+            edge(&mut v, &["plain"], true);
+            let pr1 = pr.clone();
+            subj!(v, format!("multinomial_nb[{},alpha=1,priors={}]", tn, pn), "multinomial_nb", task, Domain::Counts, 1, false, |d| {
+                let p = MultinomialNBParameters::default().with_priors(pr1.iter().map(|x| t::<T>(*x)).collect());
+                let m = MultinomialNB::fit(&xm::<T>(d), &yv::<T>(d, task), p).map_err(es)?;
+                Ok(wrap_eq(
+                    m,
+                    Rc::new(|m: &MultinomialNB<T, DM<T>>, q: &[Vec<f64>]| {
+                        let mut o = predict_obs::<T>("predict", q, &|x| m.predict(x));
+                        o.push(Obs::vals("feature_log_prob", m.feature_log_prob().iter().flat_map(|r| vals(r)).collect()));
+                        o
+                    }),
+                ))
+            });
+            edge(&mut v, &["plain"], true);
+        }
+        subj!(v, format!("bernoulli_nb[{},binarize=1.5,alpha=0]", tn), "bernoulli_nb", task, Domain::Counts, 1, false, |d| {
+            let mut p = BernoulliNBParameters::default().with_alpha(t::<T>(0.0));
+            p.binarize = Some(t::<T>(1.5));
+            let m = BernoulliNB::fit(&xm::<T>(d), &yv::<T>(d, task), p).map_err(es)?;
+            Ok(wrap_eq(
+                m,
+                Rc::new(|m: &BernoulliNB<T, DM<T>>, q: &[Vec<f64>]| {
+                    let mut o = predict_obs::<T>("predict", q, &|x| m.predict(x));
+                    o.push(Obs::vals("feature_log_prob", m.feature_log_prob().iter().flat_map(|r| vals(r)).collect()));
+                    o
+                }),
+            ))
+        });
+        edge(&mut v, &["plain"], true);
+        subj!(v, format!("multinomial_nb[{},alpha=0]", tn), "multinomial_nb", task, Domain::Counts, 1, false, |d| {
+            let p = MultinomialNBParameters::default().with_alpha(t::<T>(0.0));
+            let m = MultinomialNB::fit(&xm::<T>(d), &yv::<T>(d, task), p).map_err(es)?;
+            Ok(wrap_eq(
+                m,
+                Rc::new(|m: &MultinomialNB<T, DM<T>>, q: &[Vec<f64>]| {
+                    let mut o = predict_obs::<T>("predict", q, &|x| m.predict(x));
+                    o.push(Obs::vals("feature_log_prob", m.feature_log_prob().iter().flat_map(|r| vals(r)).collect()));
+                    o
+                }),
+            ))
+        });
+        edge(&mut v, &["plain"], true);
+        subj!(v, format!("categorical_nb[{},alpha=0]", tn), "categorical_nb", task, Domain::Counts, 1, false, |d| {
+            let p = CategoricalNBParameters::default().with_alpha(t::<T>(0.0));
+            let m = CategoricalNB::fit(&xm::<T>(d), &yv::<T>(d, task), p).map_err(es)?;
+            Ok(wrap_eq(
+                m,
+                Rc::new(|m: &CategoricalNB<T, DM<T>>, q: &[Vec<f64>]| {
+                    let mut o = predict_obs::<T>("predict", q, &|x| m.predict(x));
+                    o.push(Obs::vals("feature_log_prob", m.feature_log_prob().iter().flat_map(|a| a.iter().flat_map(|r| vals(r))).collect()));
+                    o
+                }),
+            ))
+        });
+        edge(&mut v, &["plain"], true);
+    }
+
     // clustering
     for k in [2usize, 3] {
         subj!(v, format!("kmeans[k={}]", k), "kmeans", Task::Unsupervised, Domain::Real, 1, true, |d| {
@@ -658,6 +876,10 @@ pub fn subjects<T: Num>() -> Vec<Subject> {
                 }),
             ))
         });
+        // edge family: one component, on two rows and on rank-one (collinear) data
+        if !full {
+            edge(&mut v, &["two-rows", "rank-one"], false);
+        }
     }
     for (kn, full) in [("k=1", false), ("k=p-1", true)] {
         subj!(v, format!("truncated_svd[{}]", kn), "truncated_svd", Task::Unsupervised, Domain::Real, 2, false, |d| {
@@ -672,6 +894,9 @@ pub fn subjects<T: Num>() -> Vec<Subject> {
                 }),
             ))
         });
+        if !full {
+            edge(&mut v, &["two-rows", "rank-one"], false);
+        }
     }
     v
 }
